@@ -50,6 +50,7 @@ class StaticManifestTimingContext:
 
 class DashTiming:
     DEFAULT_TIMESHIFT_BUFFER_DEPTH: ClassVar[int] = 60  # in seconds
+    MAX_TIMESHIFT_BUFFER_DEPTH: ClassVar[int] = 24 * 3600  # in seconds
 
     __slots__ = ('timeShiftBufferDepth', 'mode', 'now', 'availabilityStartTime',
                  'publishTime', 'stream_reference', 'elapsedTime', 'leeway',
@@ -98,6 +99,9 @@ class DashTiming:
         self.timeShiftBufferDepth = options.timeShiftBufferDepth
         if not self.timeShiftBufferDepth or self.timeShiftBufferDepth < 0:
             self.timeShiftBufferDepth = self.DEFAULT_TIMESHIFT_BUFFER_DEPTH
+        elif self.timeShiftBufferDepth > self.MAX_TIMESHIFT_BUFFER_DEPTH:
+            # sanity limit: a manifest lists every segment of the window
+            self.timeShiftBufferDepth = self.MAX_TIMESHIFT_BUFFER_DEPTH
         one_day = datetime.timedelta(days=1)
         if options.availabilityStartTime == 'epoch':
             # TODO: add in leap seconds
